@@ -238,6 +238,31 @@ pub fn generate(seed: u64, knobs: &Knobs) -> C10Scenario {
         parts.convert_sourcemap = Some("sourcemap.json".to_owned());
     }
     parts.bundle_luau_aliases = project.config_alias.iter().cloned().collect();
+    // in-place processing (no output location), L1 only: sources are rewritten where they
+    // are, the reference is a fresh in-place run over what the user wrote (c10.rs). The
+    // configuration stays fixed (a configuration change re-processes files that were
+    // already rewritten) and uses rules that are visibly not the identity yet idempotent.
+    let in_place = knobs.layer == Layer::L1
+        && !graph_mode
+        && project.bundle.is_none()
+        && !project.convert
+        && !project.input_is_file
+        && Rng::stream(seed, "in-place").chance(1, 10);
+    if in_place {
+        let mut ri = Rng::stream(seed, "in-place-config");
+        parts.rules = Some(match ri.below(3) {
+            0 => vec!["\"remove_comments\"".to_owned()],
+            1 => vec!["\"remove_comments\"".to_owned(), "\"remove_spaces\"".to_owned()],
+            _ => vec!["\"remove_spaces\"".to_owned(), "\"remove_comments\"".to_owned(), "\"remove_types\"".to_owned()],
+        });
+        parts.generator = match ri.below(3) {
+            0 => None,
+            1 => Some("dense".to_owned()),
+            _ => Some("readable".to_owned()),
+        };
+        parts.apply_to_files.clear();
+        parts.skip_files.clear();
+    }
     let config_text = parts.to_text();
     let mut invocation = gen::gen_invocation(
         &mut rk,
@@ -248,6 +273,16 @@ pub fn generate(seed: u64, knobs: &Knobs) -> C10Scenario {
         backend,
         false,
     );
+    if in_place {
+        // nothing of the output location chosen above is needed
+        let dropped = invocation.opts.output.take().map(|o| gen::normalize(&o)).unwrap_or_default();
+        if !dropped.is_empty() {
+            invocation
+                .extra_entries
+                .retain(|e| e.path != dropped && !e.path.starts_with(&format!("{}/", dropped)));
+        }
+        invocation.opts.generator_override = None;
+    }
     if knobs.layer != Layer::L1 {
         invocation.opts.generator_override = None;
     }
@@ -306,7 +341,10 @@ pub fn generate(seed: u64, knobs: &Knobs) -> C10Scenario {
         .iter()
         .flat_map(|d| d.values().flatten().cloned())
         .collect();
-    let output = gen::normalize(opts.output.as_deref().unwrap());
+    let output = match opts.output.as_deref() {
+        Some(output) => gen::normalize(output),
+        None => gen::normalize(&project.input),
+    };
 
     let mut next_id = 0usize;
     let mut mk = |s: &SourceFile| {
@@ -766,6 +804,7 @@ pub fn generate(seed: u64, knobs: &Knobs) -> C10Scenario {
                 world.sources[i].path = to.clone();
                 new_ops.push(Op::Rename { from, to });
             }
+            71..=86 if in_place => continue,
             71..=84 => {
                 // configuration change
                 let mut parts = world.config.clone();
@@ -1026,6 +1065,7 @@ pub fn generate(seed: u64, knobs: &Knobs) -> C10Scenario {
                     || world.sources.len() < 2
                     || !sim
                     || !knobs.allow_faults
+                    || in_place
                     || knobs.layer == Layer::LW
                 {
                     continue;
@@ -1123,7 +1163,7 @@ pub fn generate(seed: u64, knobs: &Knobs) -> C10Scenario {
             }
             _ => {
                 // injected I/O faults during the next pass, then recovery
-                if !knobs.allow_faults || !sim || world.sources.is_empty() || knobs.layer == Layer::LW {
+                if !knobs.allow_faults || in_place || !sim || world.sources.is_empty() || knobs.layer == Layer::LW {
                     continue;
                 }
                 let i = rf.below(world.sources.len());
